@@ -6,6 +6,7 @@ import (
 	"fmt"
 	"strconv"
 	"sync"
+	"sync/atomic"
 	"time"
 
 	eth2api "github.com/attestantio/go-eth2-client/api"
@@ -16,6 +17,8 @@ import (
 	"github.com/obolnetwork/charon/app/eth2wrap"
 	"github.com/obolnetwork/charon/core"
 	"github.com/obolnetwork/charon/testutil/beaconmock"
+
+	"verifharness/kit"
 )
 
 // ---------------------------------------------------------------------------------------------
@@ -49,7 +52,8 @@ type delayEv struct {
 	Deadline time.Time
 	Seq      int
 	Held     bool
-	RelSeq   int // 0: not released yet
+	Clock    bool // the wait is a timer of the fake clock itself (early-fetch cases)
+	RelSeq   int  // 0: not released yet
 	ch       chan time.Time
 }
 
@@ -153,6 +157,8 @@ type harness struct {
 	reorgs  []reorgEv
 	events  int // bumped on every recorded observation (quiescence detection)
 
+	headEvents map[string]int // head events injected per class (early-fetch cases)
+	fetchOnly  int            // FetchOnly (early attestation data fetch) invocations
 	bnCalls    map[string]int // kind/ok|fail|corrupt
 	served     map[string]int // foreign / extra entries served to the scheduler side
 	probeCalls int
@@ -169,7 +175,7 @@ type harness struct {
 func newHarness(sc *scenario, clock *clockwork.FakeClock) *harness {
 	return &harness{
 		sc: sc, clock: clock, frame: -1, curSlot: sc.S0, nth: map[kind]int{},
-		bnCalls: map[string]int{}, served: map[string]int{},
+		bnCalls: map[string]int{}, served: map[string]int{}, headEvents: map[string]int{},
 		gateCh: make(chan gateEv), done: make(chan struct{}),
 	}
 }
@@ -645,6 +651,14 @@ func (h *harness) delay(duty core.Duty, deadline time.Time) <-chan time.Time {
 	defer h.mu.Unlock()
 	h.seq++
 	d := &delayEv{Duty: duty, Deadline: deadline, Seq: h.seq, ch: ch}
+	if h.sc.Early && !h.closed {
+		// early-fetch cases advance the clock in sub-slot steps: the duty really waits for the fake clock
+		d.Clock = true
+		h.delays = append(h.delays, d)
+		h.events++
+
+		return h.clock.After(deadline.Sub(h.clock.Now()))
+	}
 	if !h.closed && hashFloat(h.sc.Seed, "hold", duty.Slot, duty.Type) < h.sc.HoldP {
 		d.Held = true
 	} else {
@@ -719,4 +733,86 @@ func (h *harness) eventCount() int {
 	defer h.mu.Unlock()
 
 	return h.events
+}
+
+// fetchOnlyFunc is registered as the fetcher's FetchOnly (early attestation data fetch on a head event).
+func (h *harness) fetchOnlyFunc(context.Context, core.Duty, core.DutyDefinitionSet, string, eth2p0.Root) error {
+	h.mu.Lock()
+	defer h.mu.Unlock()
+	if !h.closed {
+		h.fetchOnly++
+		h.events++
+	}
+
+	return nil
+}
+
+var cancelledCtx = func() context.Context {
+	ctx, cancel := context.WithCancel(context.Background())
+	cancel()
+
+	return ctx
+}()
+
+// waiters returns how many timers are pending on the fake clock (ticker, offset waits).
+func (h *harness) waiters() int {
+	n := 0
+	for n < 500 && h.clock.BlockUntilContext(cancelledCtx, n+1) == nil {
+		n++
+	}
+
+	return n
+}
+
+// settle waits until the harness has not recorded anything new and the number of timers pending on the
+// fake clock has not changed for a while (a duty goroutine that was spawned reaches its timer): pacing only.
+func (h *harness) settle() {
+	stable, last, lastW := 0, h.eventCount(), h.waiters()
+	kit.WaitUntil(2*time.Second, func() bool {
+		ec, w := h.eventCount(), h.waiters()
+		if ec != last || w != lastW {
+			last, lastW, stable = ec, w, 0
+		} else {
+			stable++
+		}
+
+		return stable > 30
+	})
+}
+
+// wallSized is the threshold above which a duration handed to the scheduler's clock cannot be a slot
+// timer: the model's genesis (2030) is years ahead of the wall clock.
+const wallSized = 365 * 24 * time.Hour
+
+// schedClock is the clock handed to the scheduler: the case's FakeClock, plus two things.
+//
+// (1) It counts the slot ticker's timer registrations, so that the driver of early-fetch cases knows
+// that the ticker is armed for the next slot before it moves the clock in sub-slot steps.
+//
+// (2) The attester wait of the early-fetch path is `s.clock.After(time.Until(deadline))`
+// (scheduler.go waitForEarlyFetchOrTimeout): the duration is measured on the WALL clock although the
+// timer runs on s.clock. On a fake clock years ahead of the wall clock that timer would sit years after
+// the deadline. After recognises such a wall-clock sized duration, recovers the absolute deadline
+// (wall now + d; read after the scheduler's time.Until, so never earlier than the scheduler's deadline)
+// and arms the fake clock for that instant, which is what the code does in production where both clocks
+// are the same. A scheduler that sizes the timer on s.clock is passed through unchanged.
+type schedClock struct {
+	*clockwork.FakeClock
+
+	tickerArms   atomic.Int64
+	fallbackArms atomic.Int64
+}
+
+func (c *schedClock) After(d time.Duration) <-chan time.Time {
+	if d > wallSized {
+		deadline := time.Now().Add(d)
+		ch := c.FakeClock.After(deadline.Sub(c.FakeClock.Now()))
+		c.fallbackArms.Add(1)
+
+		return ch
+	}
+	ch := c.FakeClock.After(d)
+	c.tickerArms.Add(1)
+
+	return ch
 }
